@@ -130,7 +130,7 @@ def run(chk):
     per = max(1, n // (core.NPROC * (1 if tier == 'quick' else 8)))
     if pid == 'C16':
         wjobs = [(chk.seed * 1000 + i, pid, per) for i in range(n // per)]
-        return core.stream(_c16_small, [(row, pid, tier, i) for i, row in enumerate(rows)], _c16_wide, wjobs, tier, step=400, chunksize=8)
+        return core.stream(_c16_small, [(row, pid, tier, i) for i, row in enumerate(rows)], _c16_wide, wjobs, tier, step=100, chunksize=8)
     idxd = list(enumerate(rows))
     if tier == 'quick':
         idxd = idxd[chk.seed % 4::4]        # quick: a quarter of the (format, modes, scale, bias) configurations, rotating with the seed
